@@ -14,8 +14,10 @@ def run(tier):
         ["prod-avx2", "asan-avx2", "prod-sse", "asan-sse", "prod-dyn", "asan-dyn"]
     pads = [0, 1, 31, 33, 63, 64] if q else [0, 1, 2, 7, 8, 15, 16, 31, 32, 33, 63, 64]
     F = T.fmtset
-    plans = [dict(MaxNodes=3 if q else 4, Pool=3, Layouts=F([0, 2]), Wide="FALSE", D=2 if q else 3),
-             dict(MaxNodes=4 if q else 5, Pool=0, Layouts=F([0, 3] if q else [0, 1, 3, 4]), Wide="FALSE", D=2),
+    # (thorough: deeper paths and more layouts; the node bounds of the quick tier are kept - one more node multiplies the
+    # number of (tree, path) cases by about 30 and does not finish in an hour)
+    plans = [dict(MaxNodes=3, Pool=3, Layouts=F([0, 2]), Wide="FALSE", D=2 if q else 3),
+             dict(MaxNodes=4, Pool=0, Layouts=F([0, 3] if q else [0, 1, 3, 4]), Wide="FALSE", D=2),
              dict(MaxNodes=1, Pool=0, Layouts=F([0, 3, 4]), Wide="TRUE", D=2),
              dict(MaxNodes=2, Pool=2, Layouts=F([0, 1]), Wide="FALSE", D=2)]
     # design level: the scanner's I-model against Lookup (Equiv) and the input bounds (InBounds); drift replay
